@@ -115,7 +115,9 @@ def shape(t):
 
 
 def check_C03(run):
+    import fam_struct
     summ, scen, obs = pipeline(run, "C03")
+    fam_struct.pipeline(run)          # accessibility clause: unexported fields that would have to be read or written
     n, d, samples = distinct(obs, lambda r: None if r["exec"] else (shape(r["s"]), shape(r["t"]), r["gen"], json.dumps(r["cfg"], sort_keys=True)))
     run.samples = [{"s": shape(r["s"]), "t": shape(r["t"]), "cfg": r["cfg"], "generator": r["gen"]} for r in samples]
     run.assumptions = ["the declarative predicate Conv (spec/PropsValue.tla) is a faithful reading of the documented rules",
